@@ -294,7 +294,9 @@ def run(ctx):
             "runs_with_parked_producer": camp.parks, "runs_with_close": camp.closes, "runs_with_lockable_flush": camp.lockable,
             "findings": {"%s/%s" % k: v for k, v in camp.findings.items()},
         },
-        "exhaustive": exh,
+        "exhaustive": False,
+        "bounded_exploration": exh,
+        "states": sum(b["states"] for b in bfs if b["states"] > 0),
         "model_bfs": bfs,
         "shape_digest": cf.shape_digest(cf.method_shapes(vcommon.SRC)),
         "samples": camp.samples,
